@@ -3,7 +3,7 @@
 import json, os, sys
 HERE = os.path.dirname(os.path.dirname(os.path.abspath(__file__)))
 sys.path.insert(0, HERE)
-from tools.manifest_table import ENGINES, NOTES, NA_REASONS, _TODO  # noqa: E402
+from tools.manifest_table import ENGINE_TEXT, NOTES, NA_REASONS, _TODO  # noqa: E402
 import ast
 
 PROPS = [json.loads(l)["id"] for l in open(os.path.join(HERE, "properties.jsonl"))]
@@ -20,6 +20,15 @@ for pid in PROPS:
         CHECKS.append(entry)
     else:
         NOT_APPLICABLE.append({"property_id": pid, "reason": NA_REASONS.get(pid, _TODO)})
+
+serves = {}
+for c in CHECKS:
+    serves.setdefault(c["engine"], []).append(c["id"])
+    serves.setdefault("smt", []).append(c["id"]) if c["engine"] in ("pyvc", "symnp", "extreal") else None
+for pid in ("C01", "C02", "C07", "C13"):
+    serves.setdefault("lean", []).append(pid)
+ENGINES = [{"name": k, "path": ENGINE_TEXT[k][0], "serves_properties": sorted(set(v)), "kind_free_text": ENGINE_TEXT[k][1]}
+           for k, v in serves.items()]
 
 BASELINE = ("cd /repo && /venv/bin/python -m pytest -ra -q -p no:cacheprovider --timeout=900 "
             "--continue-on-collection-errors")
